@@ -57,6 +57,8 @@ Inductive prim :=
 | PPropagateErr              (* Listener.notifyReadError: for each session s.notifyReadError *)
 | PCloseBacklog              (* Listener.closeBacklog: drain chAccepts, closing the sessions *)
 | PResched                   (* SystemTimedSched.Put(s.update, ..) *)
+| PBroadcast (w : which)     (* X.broadcast(): the generation of deadline w's signal moves; every
+                                caller that watched the previous generation finds `<-changed` ready *)
 | PProc (f : proc).          (* call of another generated function, inlined *)
 
 Inductive chanop :=
@@ -65,7 +67,8 @@ Inductive chanop :=
 | RcvTimerC                          (* <-timeout.C *)
 | RcvRErr | RcvWErr | RcvDie         (* closed-channel broadcasts of the session *)
 | RcvAccept | RcvLErr | RcvLDie      (* listener *)
-| RcvLEvent | SndLEvent              (* <-l.chDeadlineEvent, l.chDeadlineEvent <- struct{}{} *)
+| RcvChanged                         (* <-changed: ready iff the generation recorded by this call's
+                                        last `changed := X.watch()` is no longer the current one *)
 | SndReadEvent | SndWriteEvent.      (* s.chReadEvent <- struct{}{} *)
 
 Inductive ret :=
@@ -82,7 +85,7 @@ Inductive ret :=
 
 Inductive once := ODie | ORErr | OWErr | OLDie | OLErr.
 
-(* Yield points (labels, Lock, select) carry the number the translator gave them (pre-order,
+(* Yield points (labels, Lock, watch, select) carry the number the translator gave them (pre-order,
    unique within a function). *)
 Inductive stmt :=
 | SAssign (v : var) (e : expr)
@@ -93,6 +96,14 @@ Inductive stmt :=
 | SSelect (id : nat) (cases : list (chanop * list stmt)) (dflt : option (list stmt))
 | SChoice (alts : list (list stmt))               (* switch on data the model does not track *)
 | SLock (id : nat)                                (* s.mu.Lock() *)
+| SWatch (id : nat) (w : which)                   (* changed := X.watch(): records the current generation
+                                                     of deadline w's signal in the call's local `changed`.
+                                                     It takes the signal's mutex, so like s.mu.Lock() it is
+                                                     a yield point - two of them, numbered id (before the
+                                                     watch) and S id (after it): the call can be preempted
+                                                     between the watch and the load of the deadline in
+                                                     whichever order the source has them, which is what
+                                                     makes their order matter *)
 | SUnlock                                         (* s.mu.Unlock() *)
 | SReturn (r : ret)
 | SCall (p : prim)
